@@ -533,7 +533,11 @@ func Run(t *simkit.Tape, o *simkit.Outcome, full bool) {
 			// the same compiled expression under different prefix bindings
 			var ns map[string]string
 			nsDesc := ""
-			switch t.Pick(5, 1, 1, 1, 1) {
+			switch t.Pick(5, 1, 1, 1, 1, 1) {
+			case 5:
+				// two prefixes for one namespace (legal; whatever the library derives
+				// from the bindings must not depend on map iteration order)
+				ns, nsDesc = map[string]string{"p": "urn:a", "q": "urn:a", "xs": "urn:a"}, ", p = q = xs = urn:a"
 			case 1:
 				ns, nsDesc = map[string]string{"p": "urn:b", "q": "urn:a"}, ", p<->q swapped"
 			case 2:
@@ -545,6 +549,10 @@ func Run(t *simkit.Tape, o *simkit.Outcome, full bool) {
 			}
 			if ns != nil {
 				s.o.Probe("query-with-rebound-prefixes")
+			}
+			if len(ns) == 3 && t.Bool(1, 2) {
+				// something whose answer could be spelled with either prefix
+				pi = s.build([]string{"name(//*[namespace-uri() = 'urn:a'])", "name(//@*[namespace-uri() = 'urn:a'])", "name((//p:* | //@p:*)[1])", "concat(name(//q:*), '|', local-name(//q:*))"}[t.Draw(4)], model.TStr, "alias-seed")
 			}
 			// the same compiled expression under other values (and types) of the scalar variables
 			var vals map[string]world.Value
